@@ -80,6 +80,7 @@ type RotWrapper struct {
 	mu      sync.Mutex
 	keys    []*SafeAead
 	rotated bool
+	sealed  int // values sealed under the current key
 	rng     *mrand.Rand
 }
 
@@ -88,9 +89,20 @@ func NewRotWrapper(name string, rng *mrand.Rand) *RotWrapper {
 }
 func (r *RotWrapper) cur() *SafeAead { return r.keys[len(r.keys)-1] }
 func (r *RotWrapper) Type(ctx context.Context) (wrapping.WrapperType, error) { return r.cur().Type(ctx) }
+func (r *RotWrapper) rotate() {
+	r.keys = append(r.keys, NewSafeAead(fmt.Sprintf("rot-%d", len(r.keys)+1), r.rng))
+	r.sealed = 0
+	r.rotated = true
+}
+
+// KeyId: the key is rotated (at most three times) whenever something was sealed under the current key since it
+// became current, i.e. between one storage operation of the library and the next
 func (r *RotWrapper) KeyId(ctx context.Context) (string, error) {
 	r.mu.Lock()
 	defer r.mu.Unlock()
+	if r.sealed > 0 && len(r.keys) < 4 {
+		r.rotate()
+	}
 	return r.cur().KeyId(ctx)
 }
 func (r *RotWrapper) SetConfig(context.Context, ...wrapping.Option) (*wrapping.WrapperConfig, error) {
@@ -99,14 +111,14 @@ func (r *RotWrapper) SetConfig(context.Context, ...wrapping.Option) (*wrapping.W
 func (r *RotWrapper) Encrypt(ctx context.Context, pt []byte, opt ...wrapping.Option) (*wrapping.BlobInfo, error) {
 	r.mu.Lock()
 	c := r.cur()
+	r.sealed++
 	r.mu.Unlock()
 	return c.Encrypt(ctx, pt, opt...)
 }
 func (r *RotWrapper) Decrypt(ctx context.Context, in *wrapping.BlobInfo, opt ...wrapping.Option) ([]byte, error) {
 	r.mu.Lock()
 	if !r.rotated {
-		r.rotated = true
-		r.keys = append(r.keys, NewSafeAead(fmt.Sprintf("rot-%d", len(r.keys)+1), r.rng))
+		r.rotate()
 	}
 	keys := append([]*SafeAead{}, r.keys...)
 	r.mu.Unlock()
